@@ -81,6 +81,7 @@ func WorkerMain(args []string) int {
 	sigAll := map[uint64]struct{}{}
 	sets := map[string]map[uint64]struct{}{}
 	seenViol := map[string]bool{}
+	violating := 0
 	start := time.Now()
 	for i := *from + *offset; i < *to; i += *stride {
 		if *maxSec > 0 && i%16 == 0 && time.Since(start) > time.Duration(*maxSec)*time.Second {
@@ -138,6 +139,12 @@ func WorkerMain(args []string) int {
 			out.Samples = append(out.Samples, b)
 		}
 		if res.Violation != nil {
+			violating++
+			if violating > 12 {
+				// the batch fails anyway; do not grind through the rest of the slice on a badly broken tree
+				out.TimedOut = true
+				break
+			}
 			vk := res.Violation.Class + "|" + res.Violation.Key
 			if seenViol[vk] || len(out.Violations) >= 4 {
 				continue
@@ -150,6 +157,34 @@ func WorkerMain(args []string) int {
 				path = filepath.Join(*replays, fmt.Sprintf("%s-%d-%d.json", *propID, *seed, i))
 			}
 			fps, _ := prop.(interface{ FreshProcessShrink() bool })
+			// the batch has failed already once a handful of minimised replays exist (all worker
+			// processes write into the same directory): report this one unshrunk and stop
+			enough := false
+			if path != "" {
+				if ms, _ := filepath.Glob(filepath.Join(*replays, fmt.Sprintf("%s-%d-*.json", *propID, *seed))); len(ms) >= 6 {
+					enough = true
+				}
+			}
+			if enough {
+				q := plan
+				if !plan.Explicit {
+					q = plan.Clone()
+					q.Explicit = true
+					q.Decisions = append([]simrt.Decision{}, res.Recorded...)
+				}
+				if r := runInFreshProcess(q, path); r != nil && r.Violation != nil && r.Violation.Class == res.Violation.Class {
+					q = q.Clone()
+					v := *r.Violation
+					q.Expect = &v
+					b, _ := json.MarshalIndent(q, "", " ")
+					_ = os.WriteFile(path, b, 0o644)
+					out.Violations = append(out.Violations, ViolationOut{Violation: v, Index: i, Replay: path, OrigSize: planSize(plan), MinSize: planSize(q)})
+				} else {
+					out.Unreproduced++
+				}
+				out.TimedOut = true
+				break
+			}
 			if !*noShrink && (fps == nil || !fps.FreshProcessShrink()) {
 				var runs int
 				min, minRes, runs = Minimise(prop, plan, res, 3000)
@@ -425,6 +460,14 @@ func BatchMain(args []string) int {
 	if *selfN > *n {
 		*selfN = *n
 	}
+	if *replays != "" {
+		// replay files of an earlier batch with the same property and seed would be mistaken for this batch's
+		if old, _ := filepath.Glob(filepath.Join(*replays, fmt.Sprintf("%s-%d-*.json*", *propID, *seed))); len(old) > 0 {
+			for _, f := range old {
+				_ = os.Remove(f)
+			}
+		}
+	}
 	fmt.Printf("verifsim: property=%s tier=%s VERIF_SEED=%d plans=%d workers=%d\n", *propID, *tier, *seed, *n, *workers)
 	self, _ := os.Executable()
 	type wres struct {
@@ -456,21 +499,40 @@ func BatchMain(args []string) int {
 	if *replays != "" {
 		common = append(common, "-replays", *replays)
 	}
-	results := make([]wres, *workers)
+	// Process-start state is a sampled dimension too: a property may ask for K short-lived
+	// worker processes per core instead of one long-lived one (more "first operations of a process").
+	jobs := *workers
+	if c, ok := prop.(interface{ ProcessesPerWorker(tier string) int }); ok {
+		if k := c.ProcessesPerWorker(*tier); k > 1 {
+			jobs = *workers * k
+			if uint64(jobs) > *n {
+				jobs = int(*n)
+			}
+		}
+	}
+	for i, a := range common {
+		if a == "-stride" {
+			common[i+1] = fmt.Sprint(jobs)
+		}
+	}
+	results := make([]wres, jobs)
 	done := make(chan int)
+	sem := make(chan struct{}, *workers)
 	sigDir, err := os.MkdirTemp(filepath.Dir(self), "sigs")
 	if err != nil {
 		fmt.Fprintf(os.Stderr, "INFRA: %v\n", err)
 		return 2
 	}
 	defer os.RemoveAll(sigDir)
-	for w := 0; w < *workers; w++ {
+	for w := 0; w < jobs; w++ {
 		go func(w int) {
+			sem <- struct{}{}
 			results[w] = runWorker(1, append(append([]string{}, common...), "-offset", fmt.Sprint(w), "-sigfile", filepath.Join(sigDir, fmt.Sprintf("w%d.bin", w)))...)
+			<-sem
 			done <- w
 		}(w)
 	}
-	for w := 0; w < *workers; w++ {
+	for w := 0; w < jobs; w++ {
 		<-done
 	}
 	agg := WorkerOut{Faults: map[string]int{}, Probes: map[string]int{}, Digests: map[string]uint64{}}
@@ -625,14 +687,21 @@ func BatchMain(args []string) int {
 			continue
 		}
 		if v.Replay != "" {
-			cmd := exec.Command(self, "replay", "-quiet", "-file", v.Replay)
-			cmd.Env = append(os.Environ(), "GOMAXPROCS=1")
-			outb, err := cmd.CombinedOutput()
+			// (up to three attempts: the race detector keeps a bounded, randomly evicted access history
+			// per memory word, so a report on a heavily used word is not guaranteed on every execution)
 			code := 0
-			if ee, ok := err.(*exec.ExitError); ok {
-				code = ee.ExitCode()
-			} else if err != nil {
-				code = 2
+			var outb []byte
+			for attempt := 0; attempt < 3 && code != 1; attempt++ {
+				cmd := exec.Command(self, "replay", "-quiet", "-file", v.Replay)
+				cmd.Env = append(os.Environ(), "GOMAXPROCS=1")
+				var err error
+				outb, err = cmd.CombinedOutput()
+				code = 0
+				if ee, ok := err.(*exec.ExitError); ok {
+					code = ee.ExitCode()
+				} else if err != nil {
+					code = 2
+				}
 			}
 			if code != 1 {
 				fmt.Fprintf(os.Stderr, "INFRA: replay of %s in a fresh process did not reproduce the violation (exit %d): %s\n", v.Replay, code, tail(string(outb), 2000))
@@ -668,6 +737,7 @@ func BatchMain(args []string) int {
 			"shrink_runs":         agg.ShrinkRuns,
 			"stopped_by_time_cap": agg.TimedOut,
 			"workers":             *workers,
+			"worker_processes":    jobs,
 			"known_findings_hit":  knownHit,
 			"distinct_sets":       setCounts,
 			"determinism_processes": selfProcs,
